@@ -27,7 +27,7 @@ PROPS = {
         "design_ref": "DESIGN.md §3.2, §4 C09",
     },
     "C17": {
-        "rules": ["FRESHNAME", "PRINTSCOPE", "PRINTSYM", "PRINTPARSE", "PREC", "FIELDS", "EXH"],
+        "rules": ["FRESHNAME", "PRINTSCOPE", "PRINTSYM", "VALIDNAME", "PRINTPARSE", "PREC", "FIELDS", "EXH"],
         "thorough": [],
         "technique": "static analysis: fresh-name registry rule, precedence-table embedding, per-constructor field coverage of the printer",
         "level_text": "Structural clauses only: (1) the name disambiguator records every identifier it issues (distinct Syms never share a printed "
